@@ -76,6 +76,19 @@ class Facts:
             if "trait_path" in im:
                 self.impl_index.setdefault((im["trait_path"], im["self"]), []).append(im)
 
+    def ctor_index(self):
+        """constructor path (struct or enum variant used as a function) -> (adt, variant, field names)"""
+        if not hasattr(self, '_ctor'):
+            self._ctor = {}
+            for a in self.raw['adts']:
+                for v in a['variants']:
+                    names = [f['name'] for f in v['fields']]
+                    if a['kind'] == 'Enum':
+                        self._ctor[a['path'] + '::' + v['name']] = (a['path'], v['name'], names)
+                    else:
+                        self._ctor[a['path']] = (a['path'], v['name'], names)
+        return self._ctor
+
     def fn(self, path):
         return self.fns.get(path)
 
